@@ -12,6 +12,7 @@ CONSTANTS
   ClassExprs <- ClassExprsFull
   Repaired = {"KvCompName", "SliceKVRules"}
   Variant = "nonceForgets"
+  NonceCtxs = {"c1"}
   MaxNonces = 1
   MaxSteps = 99
   EmitEdges = FALSE
